@@ -214,6 +214,7 @@ func vpStorageQueries(maxN int) {
 	li, _ := ms.LastIndex()
 	vpAssert(vpAnd(fi == a.base+1, li == a.last()), "C18/storage/query/first-last")
 	i := vpU64()
+	vpAssume(i <= vpMaxIdx*4) // indexes near 2^64 are outside every claim (DESIGN 2.4)
 	t, err := ms.Term(i)
 	vpAssert((err == ErrCompacted) == (i < a.base), "C18/storage/query/term-compacted-iff")
 	vpAssert((err == ErrUnavailable) == (i > a.last()), "C18/storage/query/term-unavailable-iff")
@@ -221,7 +222,7 @@ func vpStorageQueries(maxN int) {
 		vpAssert(t == a.termAt(i), "C18/storage/query/term-value")
 	}
 	lo, hi, max := vpU64(), vpU64(), vpU64()
-	vpAssume(vpAnd(lo <= hi, hi <= a.last()+1)) // hi beyond last+1 is the documented panic
+	vpAssume(vpAnd(lo <= hi, hi <= a.last()+1, max <= vpMaxSize*4)) // hi beyond last+1 is the documented panic
 	ents, err := ms.Entries(lo, hi, max)
 	vpAssert((err == ErrCompacted) == (lo <= a.base), "C18/storage/query/entries-compacted-iff")
 	if err == ErrUnavailable {
@@ -266,6 +267,7 @@ func vpLogQueries(ls, lu int) {
 	l, v := vpLogState(ls, lu, true)
 	vpAssert(vpAnd(l.firstIndex() == v.first, l.lastIndex() == v.last), "C18/log/first-last")
 	i := vpU64()
+	vpAssume(i <= vpMaxIdx*4) // indexes near 2^64 are outside every claim (DESIGN 2.4)
 	t, err := l.term(i)
 	vpAssert((err == ErrCompacted) == (i+1 < v.first), "C18/log/term-compacted-iff")
 	vpAssert((err == ErrUnavailable) == (i > v.last), "C18/log/term-unavailable-iff")
@@ -357,9 +359,20 @@ func vpLogMaybeAppend(ls, lu, maxK int) {
 		return
 	}
 	vpAssert(lastNew == prevI+uint64(kk), "M1/last-new-index")
-	// the slice is in the log afterwards
+	// first index at which the receiver's log and the slice disagree (0 if none)
+	var ci uint64
+	for i := len(ents) - 1; i >= 0; i-- {
+		e := ents[i]
+		c := vpOr(!v.has(e.GetIndex()), v.termAt(e.GetIndex()) != e.GetTerm())
+		ci = vpIte(c, e.GetIndex(), ci)
+	}
+	// the slice is in the log afterwards: same (index, term) everywhere, and the
+	// very entries of the message from the first disagreement on (below it the
+	// receiver keeps its own entries, which log matching makes identical)
 	for _, e := range ents {
-		vpAssert(vpAnd(p.has(e.GetIndex()), vpSlotEq(p.slotAt(e.GetIndex()), vpSlotOf(e))), "M1/slice-present")
+		vpAssert(vpAnd(p.has(e.GetIndex()), p.termAt(e.GetIndex()) == e.GetTerm()), "M1/slice-present")
+		vpAssert(vpImplies(vpAnd(ci != 0, e.GetIndex() >= ci), vpSlotEq(p.slotAt(e.GetIndex()), vpSlotOf(e))), "M1/appended-entries-are-the-message-entries")
+		vpAssert(vpImplies(vpOr(ci == 0, e.GetIndex() < ci), vpSlotEq(p.slotAt(e.GetIndex()), v.slotAt(e.GetIndex()))), "M1/matching-entries-kept")
 	}
 	// everything at or below prev is untouched
 	vpAssert(vpImplies(vpAnd(v.has(j), j <= prevI), vpAnd(p.has(j), vpSlotEq(p.slotAt(j), v.slotAt(j)))), "M1/prefix-kept")
